@@ -120,6 +120,7 @@ def dispatch (op : String) (args : List String) : String :=
   | "ggetk" | "ggets" | "gtsinit" | "ggrayget" | "gtostack" | "gsavetifw" | "gsavetifio" | "gfull" | "ggray" | "gframend" | "gnrrd" | "gv3d" | "gv3draw" | "gv3dpbd" => AlgoRun.handleImgIo2 op args
   | "gparse" => AlgoRun.handleParse args
   | "greadfront" => AlgoRun.handleReadFront args
+  | "gprologue" => AlgoRun.handlePrologue args
   | "gtosubtree" | "gcutenter" | "gcutdepth" | "gcutleave" | "gcutleaveset" | "gcuttype" | "gcutorder" => AlgoRun.handleCut op args
   | "gcuttip" => AlgoRun.handleShortTip op args
   | "gsubimpl" => AlgoRun.handleSubImpl args
